@@ -173,6 +173,9 @@ IsDepPath(p, from, to) ==
   /\ (\A x \in 1..(Len(p) - 1) : p[x + 1] \in deps[p[x]])
   /\ (\A x, y \in 1..Len(p) : x # y => p[x] # p[y])
 DepPaths(from, to) == {p \in PathsUpTo : IsDepPath(p, from, to)}
+RECURSIVE DepReachF(_)
+DepReachF(S) == LET T == S \cup UNION {deps[k] : k \in S} IN IF T = S THEN S ELSE DepReachF(T)
+HasDepPath(from, to) == to \in DepReachF({from})
 ShortestDepPaths(from, to) == LET P == DepPaths(from, to) IN {p \in P : \A q \in P : Len(p) <= Len(q)}
 (* the path the code builds: t -> ... -> caller -> t ; for a self-loop <<t, t, t>> *)
 CyclePath(p, t) == IF Len(p) = 1 THEN <<t, t, t>> ELSE Append(p, t)
@@ -217,8 +220,10 @@ OpBegin ==
 
 (* ---- Run ---- *)
 RunEnter(i, g) ==         \* dirty.RLock; generation := counter.Add(1)
-  /\ acts[i].pc = "enter" /\ ~writer /\ g > counter
-  /\ readers' = readers + 1 /\ counter' = g
+  /\ acts[i].pc = "enter" /\ ~writer
+  \* counter.Add(1) and the trace point are two steps: concurrent Runs may log their generations out of order
+  /\ g > counter \/ (Stale /\ g > 0 /\ \A r \in DOMAIN runs : runs[r].gen # g)
+  /\ readers' = readers + 1 /\ counter' = IF g > counter THEN g ELSE counter
   /\ runs' = [runs EXCEPT ![acts[i].run].gen = g]
   /\ acts' = [acts EXCEPT ![i].pc = "racq"]
   /\ UNCHANGED <<cfg, step, tasks, res, out, val, fat, rrun, deps, callers, sema, writer, ver, ev,
@@ -365,14 +370,14 @@ LeaderReset(i) ==         \* F1: t.result.CompareAndSwap(output, nil); return ni
                  runs, ev, execCnt, execIn, flags>>
 
 (* Execute returned (or panicked).  Deferred release / transfer-back run first. *)
-End(i) ==
+EndWith(i, ext, xv, xf) ==   \* ext: value and fatal error are given (trace validation of foreign queries)
   /\ acts[i].pc = "end"
   /\ LET a == acts[i] k == a.key p == a.par
-         panics == ~a.cerr /\ k \in cfg.pan
+         panics == ~ext /\ ~a.cerr /\ k \in cfg.pan
          \* caller.transferFrom(callee) with callee not holding aborts -> panic, recovered as a query panic
          lost == ~a.async /\ ~a.hold
-         rv == IF a.cerr \/ a.af.t # "none" THEN 0 ELSE Final(a.acc, ver[k])
-         rf == IF a.cerr THEN CancelF ELSE a.af
+         rv == IF ext THEN xv ELSE IF a.cerr \/ a.af.t # "none" THEN 0 ELSE Final(a.acc, ver[k])
+         rf == IF ext THEN xf ELSE IF a.cerr THEN CancelF ELSE a.af
          a2 == [a EXCEPT !.hold = FALSE, !.rv = rv, !.rf = rf,
                          !.pc = IF panics \/ lost THEN (IF "F3" \in Fix THEN "pcancel" ELSE "preset") ELSE "close"]
      IN /\ sema' = IF a.async /\ a.hold THEN sema + 1 ELSE sema
@@ -381,6 +386,8 @@ End(i) ==
                    ELSE [acts EXCEPT ![i] = a2]
   /\ UNCHANGED <<cfg, step, tasks, res, out, val, fat, rrun, deps, callers, readers, writer, counter,
                  ver, runs, ev, execCnt, execIn, flags>>
+
+End(i) == EndWith(i, FALSE, 0, NoF)
 
 Close(i, drop) ==         \* close(output.done) and hand the result to the caller
   /\ acts[i].pc = "close"
@@ -425,8 +432,8 @@ CheckCycle(i, path) ==    \* BFS over deps as they are now; path = <<>> means no
   /\ acts[i].pc = "chk"
   /\ LET a == acts[i] k == a.key ck == a.pkey
          live == res[k] = "done" /\ out[k] = a.o IN
-     IF ck # ROOT /\ DepPaths(k, ck) # {} THEN
-       /\ path \in DepPaths(k, ck)
+     IF ck # ROOT /\ HasDepPath(k, ck) THEN
+       /\ Len(path) > 0 /\ IsDepPath(path, k, ck)
        /\ LET cp == CyclePath(path, k)
               \* output.Fatal = err is a write to the SHARED result object: it replaces the Fatal of a
               \* memoised result, and that of a leader whose Execute has returned but which has not closed yet
